@@ -2,7 +2,7 @@
    examples (none for an empty input), and tagging changes only the grouping. *)
 From Coq Require Import ZArith List Bool.
 From Tdda Require Import Base.Sexp Base.Str Rexpy.Chars Rexpy.Pipeline Rexpy.PipelineProofs Rexpy.Sem
-     Rexpy.OracleCheck Rexpy.RefineProofs Rexpy.BatchProofs Rexpy.Regex Rexpy.RegexProofs.
+     Rexpy.OracleCheck Rexpy.RefineProofs Rexpy.BatchProofs Rexpy.Regex Rexpy.RegexProofs Rexpy.PruneProofs.
 Import ListNotations.
 Open Scope Z_scope.
 
@@ -78,3 +78,33 @@ Theorem C13_portable_each_matches_some : forall ct o e stripped gt ex merged rex
   forall text, In text prex -> exists s, In s (ex_strings ex) /\ re_model_fullmatch ct text s = Some true.
 Proof. exact batch_portable_each_matches. Qed.
 Print Assumptions C13_portable_each_matches_some.
+
+(* max_patterns / min_strings_per_pattern (Extractor.find_bad_patterns; run_extractor keeps exactly the expressions whose
+   index passes this filter, in their order).  For every list of counts: pruning only removes; with min_strings_per_pattern
+   above 1 every kept expression counts at least that many strings - and, when max_patterns is not set, the kept ones are
+   EXACTLY those that do; with max_patterns = M at most M expressions remain. *)
+Theorem C13_pruning_only_removes : forall o freqs i, In i (kept o freqs) -> (i < length freqs)%nat.
+Proof. exact kept_increasing. Qed.
+Print Assumptions C13_pruning_only_removes.
+
+Theorem C13_pruning_min_strings : forall o freqs i,
+  1 < o_min_strings o -> In i (kept o freqs) -> o_min_strings o <= nth i freqs 0.
+Proof. exact kept_min_strings. Qed.
+Print Assumptions C13_pruning_min_strings.
+
+Theorem C13_pruning_min_strings_exact : forall o freqs i,
+  o_max_patterns o = None -> (i < length freqs)%nat ->
+  (In i (kept o freqs) <-> (o_min_strings o <= 1 \/ o_min_strings o <= nth i freqs 0)).
+Proof. exact kept_min_strings_exact. Qed.
+Print Assumptions C13_pruning_min_strings_exact.
+
+Theorem C13_pruning_max_patterns : forall o freqs M,
+  o_max_patterns o = Some M -> 0 <= M -> (length (kept o freqs) <= Z.to_nat M)%nat.
+Proof. exact kept_max_patterns. Qed.
+Print Assumptions C13_pruning_max_patterns.
+
+(* the counts handed to the pruning are one per expression, and run_extractor's filter is this `kept` *)
+Theorem C13_pruning_counts_per_expression : forall mt rexes all fails re_freqs,
+  rexes <> [] -> find_non_matches mt rexes all = Ok (fails, re_freqs) -> length re_freqs = length rexes.
+Proof. exact find_non_matches_freqs_length. Qed.
+Print Assumptions C13_pruning_counts_per_expression.
